@@ -80,11 +80,11 @@ func genC17(g *Gen, n int) {
 		case k < 72:
 			fs := zipuGenFiles(g.Rand, zipuGenOpts{realFS: true, honest: true})
 			c17Sparse(g.Rand, fs)
-			g.Emit("zip.checkdir "+c17DirGe124(fs)+" "+zipuFilesTok(fs), true, "checkdir")
+			g.Emit("zip.checkdir "+c17DirGe124(fs)+" "+zipuDirFilesTok(fs), true, "checkdir")
 		case k < 80:
 			fs := zipuGenFiles(g.Rand, zipuGenOpts{realFS: true, honest: true})
 			mp, mv := zipuPickMod(g.Rand, 5)
-			g.Emit("zip.createfromdir "+hx(mp)+" "+hx(mv)+" "+c17DirGe124(fs)+" "+zipuFilesTok(fs), true, "createfromdir")
+			g.Emit("zip.createfromdir "+hx(mp)+" "+hx(mv)+" "+c17DirGe124(fs)+" "+zipuDirFilesTok(fs), true, "createfromdir")
 		case k < 88:
 			name := c17VendorName(g.Rand)
 			g.Emit("zip.isvendoredpackage "+hx(name)+" "+showBool(g.Bool()), true, "vendored")
@@ -118,11 +118,7 @@ func c17Sparse(r *Rand, fs []*zipuFile) {
 func c17DirGe124(fs []*zipuFile) string {
 	for _, f := range fs {
 		if f.path == "go.mod" && f.mode == 'r' {
-			data := f.content
-			if f.size > int64(len(data)) {
-				data = append(append([]byte{}, data...), make([]byte, f.size-int64(len(data)))...)
-			}
-			return showBool(zipuGe124(data))
+			return showBool(zipuGe124(zipuDiskContent(f)))
 		}
 	}
 	return "false"
@@ -463,8 +459,8 @@ func c17OracleDir(g *Gen, fs []*zipuFile) {
 	}
 	mp, mv := zipuPickMod(g.Rand, 3)
 	m := module.Version{Path: mp, Version: mv}
-	line := "zip.checkdir " + c17DirGe124(fs) + " " + zipuFilesTok(fs)
-	line2 := "zip.createfromdir " + hx(mp) + " " + hx(mv) + " " + c17DirGe124(fs) + " " + zipuFilesTok(fs)
+	line := "zip.checkdir " + c17DirGe124(fs) + " " + zipuDirFilesTok(fs)
+	line2 := "zip.createfromdir " + hx(mp) + " " + hx(mv) + " " + c17DirGe124(fs) + " " + zipuDirFilesTok(fs)
 	// the list of its files: every regular file found on disk, in walk order, read back from disk
 	var list []*zipuFile
 	filepath.Walk(root, func(p string, info os.FileInfo, err error) error {
